@@ -3,6 +3,6 @@ PROP = {
     "stages": [
         {"name": "main"},
         # dependency `unsafe` (lexical-core, memchr, bstr, zlib-rs, bzip2, lzma) reached by the same workload, reduced
-        {"name": "asan", "variant": "asan", "args": ["inproc=1", "cases=300"], "tiers": ("thorough",), "optional": True, "timeout": 3600},
+        {"name": "asan", "variant": "asan", "args": ["inproc=1", "cases=300", "itf8_exhaustive=0"], "tiers": ("thorough",), "optional": True, "timeout": 3600},
     ],
 }
